@@ -12,6 +12,21 @@ T = {
     "C01": ("reference-model monitor at the API boundary: harness-owned harmonic model (pair-spring image sum / space-group-projected random array) vs produce_force_constants output, C04 tiling contracts always on",
             "Held on the executions produced: zoo of 34 prototypes (incl. 4 magnetic) x diagonal/non-diagonal/centring supercells x primitive matrices x 3x2x3 displacement options x full/compact x symmetry on/off; evidence lists what was visited. Exactly harmonic model makes every option combination decidable to 1e-9.",
             "shim-built extension (argument conversion only); spglib operations of the supercell for the projected model; traditional solver only (symfc/ALM absent)", "3/C01"),
+    "C02": ("reference-model monitor: direct infinite-lattice Fourier sum of the closed-form pair model (harness, Cartesian) vs DynamicalMatrix.run(C|Py) and run_qpoints",
+            "Held on the executions produced: 30 zoo prototypes x diag/non-diag supercells x P/centring primitive x short-range (any q: random, zone boundary, |q|>1, Gamma) and long-range (commensurate q) regimes x full/compact x dense/sparse; 1e-9 relative.",
+            "pair model tapered to zero at the cutoff; primitive cell taken from the object (its tiling is checked by the C04 contract in the same run)", "3/C02"),
+    "C03": ("relational (metamorphic) monitor over pairs of executions: Hermiticity, D(-q)=conj D(q), spectrum(q+G), spectrum(Rq), acoustic zeros, s/t scaling through the setters",
+            "Held on the executions produced: arbitrary periodic arrays, ASR arrays and space-group-projected arrays on the zoo, C and Py paths, full/compact, dense/sparse; the Rq identity only where the harness measured the symmetry precondition.",
+            "harness group action (spglib operations + brute-force atom matching) decides the symmetry precondition", "3/C03"),
+    "C04": ("icontract post-conditions on Supercell.__init__/Primitive.__init__ (always on in every check) + dedicated driver with an integer-arithmetic tiling oracle",
+            "Held on the executions produced: hostile unit cells x sampled (quick) / all (thorough) {-1,0,1} matrices with det>0, diagonal and random matrices x old-style and SNF; primitive matrices P,F,I,A,C,R,auto,explicit; rejection inputs. Contract evaluation counts from all call sites are in the evidence.",
+            "empty cell or exception = rejected; tolerances 1e-10 (lattice) / 1e-8 (integrality)", "3/C04"),
+    "C05": ("post-condition monitor on ShortestPairs / Primitive.get_smallest_vectors with a brute-force image enumeration inside a provably sufficient box; must/must-not/don't-care bands around symprec",
+            "Held on the pairs produced: sheared random lattices, needles/plates to 1:50, cubic/fcc/bcc/hex with 2..8-fold ties, zoo supercells; dense and sparse storage describe the same sets.",
+            "Niggli reduction by the harness' own spglib call to bound the box; boxes > 3e6 points skipped and counted", "3/C05"),
+    "C06": ("icontract post-conditions on get_commensurate_points* (integer lattice arithmetic) + round-trip monitor FC->D(q_c)->FC (C/Py, full/compact) + ph2ph re-expression monitor",
+            "Held on the executions produced: random integer matrices (det<=48), zoo supercells incl. Wigner-Seitz-boundary multiplicities, ph2ph to multiple and non-multiple targets with/without NAC (Gonze-Lee to its reciprocal-sum precision).",
+            "round trip claimed for permutation-symmetric periodic arrays only (D is Hermitised); ph2ph compared at q commensurate with both supercells", "3/C06"),
 }
 
 NA_REASON = "check not built yet in this round (runtime-monitoring driver pending); no claim is made"
